@@ -47,6 +47,11 @@ CHECKS = {
    text="TLC checks list = product, associativity, multiplicative determinant, rotate-about-centre, and affine invariance of Bezier evaluation for every list of <= 3 of 14 operations, and JointsKept (incl. the closing joint) for every joint pattern with independently rounded images; all ~200 distinct product matrices are applied with transform() to lattice Beziers (1e-12) and lattice arcs (1e-6) and image.point(t) is compared with M(point(t)); translated / rotated (default and explicit origins, angles incl. 390) / scaled (2, 1/2, -1, -3, 1/3; non-uniform on Beziers; arcs must refuse or be right); every joint pattern of <= 4 segments (L / Q / C / A mixes) is mapped with rounding-prone factors and joints that coincided must coincide exactly, closed paths stay closed.",
    note="Trusted: TLC, numpy for applying M to a point. Singular matrices are not generated (outside the property).",
    ref="4 (C10), 3.9"),
+ 'C13': dict(
+   technique="TLA+ lattice model of point-to-segment distance (RadialRange.tla: closed form for lines, exact witness distances for curves) model-checked with TLC; every (segment, query point) case replayed through radialrange / closest_point_in_path / farthest_point_in_path",
+   text="TLC checks LineMinIsMin, LineMaxAtEnd and WitnessBounds along the walk over the witnesses for 10 lattice segments (lines, parabola with its centre of curvature and focus, cusped, folded and S-shaped cubics) x 15 query points (far, near, on the curve, beyond the ends); each case - plain, scaled 1e-3 with an offset, rotated 30 degrees and scaled 1e4 - must return parameters in [0,1], d = |point(t)-z|, no witness closer than dmin or farther than dmax, the exact projection on lines and 0 for points on the curve; random paths of model segments: the extreme over the segments with the index of the segment attaining it.",
+   note="Trusted: TLC. Optimality between witnesses (spacing 1/8, 1/16 thorough) is not decided for curved segments.",
+   ref="4 (C13)"),
  'C15': dict(
    technique="TLA+ model of end tangents of Bezier curves with coincident control points (BezierTan.tla: Taylor expansion at the ends) model-checked with TLC, plus the lattice arc walk; every model curve, under lattice similarities and reversal, replayed through unit_tangent / normal / curvature",
    text="TLC checks TaylorAt0 / TaylorAt1 (all lower derivatives vanish at the end and the first non-vanishing one is the stated positive multiple of the first non-vanishing control difference, in the direction of travel) for every degree 2-3 curve with 0-2 coincident control points at either end heading into 12 directions; each curve - plain, translated, rotated by 90k/30/-45 degrees, scaled by 2, 1/2, -3, and reversed - must give unit_tangent(0/1) = the model direction with its sign, modulus 1, normal = -i tangent, and the exact tangent/curvature at t = 1/2 from the model's integer derivatives; lines; lattice arcs: tangent along the sweep, curvature 1/r on circles and the closed form on ellipses.",
